@@ -517,7 +517,16 @@ fn load_toplevel_items_(
                     // import. We don't need to load the namespace
                     // again, but we do need to add the values to the
                     // current namespace.
-                    let imported_ns = env.get_namespace(&abs_path).unwrap();
+                    let Some(imported_ns) = env.get_namespace(&abs_path) else {
+                        // We could not read or parse this file the
+                        // first time, which has been reported already.
+                        insert_placeholder_namespace(
+                            abs_path.clone(),
+                            import_info.namespace_sym.as_ref(),
+                            Rc::clone(&namespace),
+                        );
+                        continue;
+                    };
                     if import_info.namespace_sym.is_none() {
                         unfinished_imports.push((Rc::clone(&namespace), Rc::clone(&imported_ns)));
                     }
